@@ -264,6 +264,7 @@ def gen_design(r, size=2, refs=True, ncs=True, arrays=True, nested=True, devs=No
     mods = []
     design = dict(mods=mods, exts=exts, top=nmods - 1)
     site = [0]
+    ncnames = {}
     for mi in range(nmods):
         is_top = mi == nmods - 1
         nports = r.randint(0, 2) if is_top else r.randint(1, 3)
@@ -294,9 +295,14 @@ def gen_design(r, size=2, refs=True, ncs=True, arrays=True, nested=True, devs=No
                     y, q = r.choice(others)
                     x["conns"].append([port, ["ref", y, q]])
                     referenced.add((y, q))
-                elif ncs and x["n"] == 0 and u < 0.30:
-                    site[0] += 1
-                    x["conns"].append([port, ["nc", site[0], r.choice([None, None, f"nc{site[0]}"])]])
+                elif ncs and u < 0.30:
+                    if site[0] == 0 or r.random() < 0.7:
+                        site[0] += 1
+                        ncnames[site[0]] = r.choice([None, None, f"nc{site[0]}", "ncx", sigs[0][0]])
+                        st = site[0]
+                    else:
+                        st = r.randint(1, site[0])       # a shared no-connect object
+                    x["conns"].append([port, ["nc", st, ncnames[st]]])
                 elif refs and x["n"] == 0 and u < 0.34:
                     x["conns"].append([port, None])       # left unconnected: must end up referenced
                 else:
